@@ -212,6 +212,8 @@ class SSETransport(Transport):
             await self._incoming_send.aclose()
         if hasattr(self, "_outgoing_send") and self._outgoing_send:
             await self._outgoing_send.aclose()
+        if hasattr(self, "_outgoing_recv") and self._outgoing_recv:
+            await self._outgoing_recv.aclose()
 
         # Close HTTP clients
         if hasattr(self, "_stream_client") and self._stream_client:
